@@ -4,7 +4,7 @@ wall-time reporting, and no set/dict iteration order influences a verdict (every
 import argparse, concurrent.futures, hashlib, json, os, re, shutil, subprocess, sys, time
 
 VERIF = os.path.dirname(os.path.dirname(os.path.abspath(__file__)))
-REPO = os.environ.get("VERIF_REPO", "/repo")
+REPO = os.environ.get("VERIF_REPO") or "/repo"   # an empty value means the default too
 BUILD = os.path.join(VERIF, "build")
 TFEL_BUILD = os.path.join(BUILD, "tfel")
 WORK = os.path.join(VERIF, "work")
